@@ -24,12 +24,12 @@ MANIFEST = {
             "K4 is outside the invariant; init_work_data is proved to establish the invariant (initWorkData_wf), giving shuffle_correct_regs: for "
             "every register-only assignment, emitArgsAssignment ok => judge(run prog (setup ..)) = true; the selection hypothesis is discharged for "
             "x86 integer variables and all register ids (x86_int_hyp_all_ids); every register-only initial context of the sweep is checked "
-            "at run time against an executable mirror of the invariant (wf0). NOT proved: phases 1/3 (stack "
-            "sources/destinations) and the SA variable; "
+            "at run time against an executable mirror of the invariant (wf0). phase 3 (stack sources loaded into registers) is proved at context level (shuffle_phase3_correct) on the generalised "
+            "invariant; NOT proved: its link to init_work_data, phase 1 (stack destinations) and the moving SA variable; "
             "the full-strength shuffle_correct is shown false at the K3/K4/K5 witnesses. Every schedule the real code emits is additionally "
             "judged by the abstract machine of Spec/Machine.lean (monitor = testing).",
-    "note": "Model follows the code with fixes C06-1..6 (in /repo) and fixes/C06-7 (float<->double conversions inverted; until applied the "
-            "check reports exactly that violation). Trusted: Lean kernel; Spec/ABI.lean and Spec/Machine.lean as the meaning of the ABIs / of "
+    "note": "Model follows the code with fixes C06-1..7 (in /repo) and fixes/C06-8, C06-9 (non-termination on AArch64 / same-register "
+            "conversion; until applied the check reports exactly those two classes). Trusted: Lean kernel; Spec/ABI.lean and Spec/Machine.lean as the meaning of the ABIs / of "
             "the mov family; the FuncFrame facts (dirty/preserved masks, SA register/offsets) are inputs taken from the real frame (C07); the "
             "harness/driver diff. Open findings C06-K1..K7. Not claimed: x87 long double, mmx on 32-bit, call-site marshalling inside the "
             "register allocator (C05), shuffle_correct as a theorem, byte overlap of stack slots (movaps stores 16 bytes for a float).",
